@@ -55,26 +55,29 @@ for _pid, _txt in {
     "C19": "Initialized / PendingInitializers on snapshots and write transactions over arbitrary orders of register / mark-done in committed and aborted transactions; the init watch must close exactly when a committed state is initialized. One genuine defect (sync.Once consumed by an aborted mark) was found and repaired.",
 }.items():
     TEXTS[_pid] = {"engine": "lean-model+extract+harness", "design_ref": "4/" + _pid, "technique": _TABLE_TECH, "text": _txt, "note": _TABLE_NOTE}
+TEXTS["C19"]["technique"] = "Lean 4 theorems over the initializer bookkeeping of Model.Table (register / mark-done / abort / commit) and the regenerated commit protocol (init watch closed after the root store); differential check of Initialized / PendingInitializers / init watch against statedb over generated histories and schedules"
+TEXTS["C19"]["text"] = "Proved: Initialized iff no pending initializer (C19_initialized_iff_no_pending), register makes pending, mark-done removes exactly its own name and is idempotent, Abort has no effect and uncommitted changes are invisible, the commit rule for the init watch, monotonicity under mark-done, and (decided on the regenerated protocol) the init watch is closed only after the new root is visible. " + TEXTS["C19"]["text"]
+TEXTS["C19"]["note"] = "Theorems are about Model.Table's initializer functions, which the table driver executes in the correspondence run; the init-watch identity across transactions is decided by the oracle and the sched suite."
 
-_SCHED_TECH = "Lean 4 interleaving model (Model.Conc) whose per-thread step order is regenerated from the source by tools/extract; real goroutines driven through verif hooks under the same schedule and compared step by step; oracles for serial committed state, mutual exclusion, closed-implies-visible and enabledness; Lean theorems under construction"
-_SCHED_NOTE = "Translation validation until the theorems over Model.Conc are finished. Mutex / atomic pointer semantics and the atomicity of code between hook points are trusted."
+_SCHED_TECH = "Lean 4 theorems (invariant by induction over all interleavings, unbounded threads and tables) over the abstract lock/commit protocol Model.Serial, whose order facts are decided on the protocol regenerated from the source by tools/extract; Lean interleaving model Model.Conc interpreting that regenerated protocol compared step by step with real goroutines driven through verif hooks; oracles for serial committed state, mutual exclusion, closed-implies-visible and enabledness"
+_SCHED_NOTE = "Proof over Model.Serial + decided order facts on the regenerated protocol; the link Model.Serial <- Model.Conc is by those facts (no mechanised simulation), Model.Conc <-> code by the hook-scheduler correspondence (testing). Mutex / atomic pointer semantics and the atomicity of code between hook points are trusted."
 for _pid, _txt in {
-    "C02": "At every hook point inside WriteTxn / Commit / Abort / registerTable a fresh snapshot must equal the serial committed state (all writes of a commit or none, nothing uncommitted, nothing of an abort); the snapshot returned by Commit must be the state at its own commit point. Sequential abort-leaves-no-trace clauses come from the table suite.",
-    "C05": "Lock ownership observed at the per-mutex hooks must be exclusive; a writer must see the latest committed counter/revision of every table it holds; after every step the committed state must be the serial sum of all commits, also with tables registered while transactions are open. One genuine defect (table registered during an open transaction dropped, later Commit panics holding the root lock) was found and repaired.",
-    "C10": "The harness releases only threads whose next acquisition is possible according to the lock state it observed; every released thread must reach its next hook point (so transactions on other tables and readers never wait), and whenever unfinished threads exist one must be enabled (no deadlock), with table lists in any order and with duplicates.",
+    "C02": "Proved for every reachable state of Model.Serial: the committed state changes only in a transaction's single store step, which sets all of its tables at once (C02_visibility_single_instant, C02_all_or_none); Abort stores nothing (C02_abort_no_trace, C02_table_abort_restores); readers are one atomic load (decided on the regenerated protocol). Correspondence: at every hook point inside WriteTxn / Commit / Abort / registerTable a fresh snapshot must equal the serial committed state (all writes of a commit or none, nothing uncommitted, nothing of an abort); the snapshot returned by Commit must be the state at its own commit point. Sequential abort-leaves-no-trace clauses come from the table suite.",
+    "C05": "Proved for every reachable state of Model.Serial (any number of threads/tables, any interleaving): two transactions never hold one table (C05_table_mutex), a writer's loaded state equals the committed state of its tables for as long as it holds them (C05_writer_sees_latest), and the committed counter of every table equals the number of commits to it — no lost update (C05_no_lost_update). Correspondence: lock ownership observed at the per-mutex hooks must be exclusive; a writer must see the latest committed counter/revision of every table it holds; after every step the committed state must be the serial sum of all commits, also with tables registered while transactions are open. One genuine defect (table registered during an open transaction dropped, later Commit panics holding the root lock) was found and repaired.",
+    "C10": "Proved for every reachable state of Model.Serial: if some transaction is unfinished some existing thread can step (C10_no_deadlock, by the ascending-order wait-chain argument); a blocked acquisition is blocked by another open transaction containing that table (C10_delayed_only_by_sharer); a transaction none of whose tables is held by others can take every one of its steps (C10_disjoint_never_blocked); the root mutex is a leaf lock and readers lock nothing (decided on the regenerated protocol). Correspondence: the harness releases only threads whose next acquisition is possible according to the lock state it observed; every released thread must reach its next hook point (so transactions on other tables and readers never wait), and whenever unfinished threads exist one must be enabled (no deadlock), with table lists in any order and with duplicates.",
 }.items():
     TEXTS[_pid] = {"engine": "lean-model+extract+harness(hook scheduler)", "design_ref": "4/" + _pid, "technique": _SCHED_TECH, "text": _txt, "note": _SCHED_NOTE}
 
 TEXTS["C20"] = {
     "engine": "lean-model+harness(synctest)",
     "design_ref": "4/C20",
-    "technique": "Lean 4 model of WatchSet.Wait as oracle-resolved blocking selects over virtual time; differential check against the real WatchSet under testing/synctest; direct oracle for each clause (subset, closedness, exact removal, error reporting)",
+    "technique": "Lean 4 theorems over a model of WatchSet.Wait as oracle-resolved blocking selects over virtual time (all environments, all oracles); differential check against the real WatchSet under testing/synctest; direct oracle for each clause (subset, closedness, exact removal, error reporting)",
     "text": "Generated sequences of Add/Clear/Wait with channels closing before and during the waits at chosen virtual instants, settle windows and context deadlines are executed on the real WatchSet in a synctest bubble and on the model; returned sets, error flags, return times and the set afterwards (Has for every channel) are compared, and each clause of the property is checked directly on the implementation.",
-    "note": "Translation validation until the theorems over Model.WatchSet are finished.",
+    "note": "Theorems hold for every environment, settle time and every select-oracle that picks a ready case (C20_returned_members_closed, C20_set_minus_returned, C20_empty_result_only_with_ctx_error). The 'returns once a member is closed / waits at most settle' timing clause is decided by the correspondence run only. reflect.Select / timers / context are modelled by their documented behaviour.",
 }
 
-_REC_TECH = "Lean 4 model of the retry queue / backoff / timer state machine, single-mode rounds and status commit (Model.Reconciler); the real reconciler runs under testing/synctest and is compared step by step (target calls, statuses, low-watermark); direct oracles for convergence, status write-back and retry pacing; Lean theorems under construction"
-_REC_NOTE = "Translation validation until the theorems over Model.Reconciler are finished. Batch mode is decided by the oracle only. Known finding K4 (retry result dropped after a foreign status-only write) is reported, not fixed."
+_REC_TECH = "Lean 4 model of the retry queue / backoff / timer state machine, single-mode rounds and status commit (Model.Reconciler); the real reconciler runs under testing/synctest and is compared step by step (target calls, statuses, low-watermark); direct oracles for convergence, status write-back and retry pacing; Lean theorems over the model for the backoff arithmetic, retry bookkeeping, low-watermark and the status-commit rule (C15, C16); C14 convergence by correspondence + oracle"
+_REC_NOTE = "C15/C16: theorems about every retryAdd / retryClear / resetTimer / commitOne step of Model.Reconciler (listed in the evidence); whole-history clauses (convergence, pacing across rounds) are decided by the correspondence run and the oracle. Batch mode is decided by the oracle only. Known finding K4 (retry result dropped after a foreign status-only write) is reported, not fixed."
 for _pid, _txt in {
     "C14": "After failures stop and the table is quiet for more than four maximal backoffs the target must equal the table (last successful call per live object an Update with its latest data, status Done; removed objects deleted), for round sizes 1..1000, single and batch operations, arbitrary failure patterns and writes injected while an Update is in flight.",
     "C15": "At every quiet point: Done only for data the target actually holds, Error only for a version whose last Update failed, no deleted object re-created, no user or foreign field changed by a status write, no Update for an object whose status is Done. One genuine defect (a retry's status commit overwrote a foreign status-only change with the stale original object) was found and repaired.",
